@@ -135,6 +135,7 @@ type Task struct {
 	InvokeSeq int
 	ReturnSeq int
 	Result    interface{}
+	index     int
 }
 
 // Stats are per-run counters.
@@ -307,6 +308,7 @@ func (w *World) Go(c *Client, name string, fn func() (interface{}, error)) *Task
 	t := &Task{Name: name, Client: c}
 	w.mu.Lock()
 	w.live++
+	t.index = len(w.tasks)
 	w.tasks = append(w.tasks, t)
 	t.InvokeSeq = w.Seq
 	w.mu.Unlock()
@@ -327,7 +329,9 @@ func (w *World) Go(c *Client, name string, fn func() (interface{}, error)) *Task
 			w.live--
 			w.mu.Unlock()
 		}()
-		t.Result, t.Err = fn()
+		// run through a per-task trampoline: the call-path signature of every store call made on this
+		// goroutine then differs from that of the other tasks (no accidental tie groups between tasks)
+		t.Result, t.Err = trampolines[t.index%len(trampolines)](fn)
 	}()
 	if !w.Cfg.Immediate {
 		synctest.Wait()
@@ -467,6 +471,11 @@ func (w *World) Run() *Violation {
 			}
 			res := w.apply(c, f, gi, np)
 			c.wake <- res
+			if mi+1 < len(group) {
+				// let this member run to its next blocking point before the next one is released: members of
+				// a tie group must not race each other in memory
+				synctest.Wait()
+			}
 		}
 	}
 }
@@ -651,3 +660,55 @@ func payloadSum(c *Call, data []byte) uint64 {
 	h.Write(data)
 	return h.Sum64()
 }
+
+type taskFn = func() (interface{}, error)
+
+//go:noinline
+func tramp0(f taskFn) (interface{}, error) { return f() }
+
+//go:noinline
+func tramp1(f taskFn) (interface{}, error) { return f() }
+
+//go:noinline
+func tramp2(f taskFn) (interface{}, error) { return f() }
+
+//go:noinline
+func tramp3(f taskFn) (interface{}, error) { return f() }
+
+//go:noinline
+func tramp4(f taskFn) (interface{}, error) { return f() }
+
+//go:noinline
+func tramp5(f taskFn) (interface{}, error) { return f() }
+
+//go:noinline
+func tramp6(f taskFn) (interface{}, error) { return f() }
+
+//go:noinline
+func tramp7(f taskFn) (interface{}, error) { return f() }
+
+//go:noinline
+func tramp8(f taskFn) (interface{}, error) { return f() }
+
+//go:noinline
+func tramp9(f taskFn) (interface{}, error) { return f() }
+
+//go:noinline
+func tramp10(f taskFn) (interface{}, error) { return f() }
+
+//go:noinline
+func tramp11(f taskFn) (interface{}, error) { return f() }
+
+//go:noinline
+func tramp12(f taskFn) (interface{}, error) { return f() }
+
+//go:noinline
+func tramp13(f taskFn) (interface{}, error) { return f() }
+
+//go:noinline
+func tramp14(f taskFn) (interface{}, error) { return f() }
+
+//go:noinline
+func tramp15(f taskFn) (interface{}, error) { return f() }
+
+var trampolines = []func(taskFn) (interface{}, error){tramp0, tramp1, tramp2, tramp3, tramp4, tramp5, tramp6, tramp7, tramp8, tramp9, tramp10, tramp11, tramp12, tramp13, tramp14, tramp15}
